@@ -23,8 +23,8 @@ instance instScalarReal : Scalar ℝ where
   atan2 := fun y x => Complex.arg ⟨x, y⟩
   floor := fun x => (⌊x⌋ : ℝ)
   abs := fun x => |x|
-  decLt := fun a b => Classical.propDecidable _
-  decLe := fun a b => Classical.propDecidable _
+  decLt := fun _ _ => Classical.propDecidable _
+  decLe := fun _ _ => Classical.propDecidable _
   eqb := fun a b => decide (a = b)
 
 end
